@@ -34,6 +34,12 @@ def check(ctx):
     ctx.rule("R5", "module stem agrees with declared class/version/platform name; log window 0<=begin<end<=size")
     ctx.rule("R6", "layout of every module pinned at 236b7b1 is unchanged (item-by-item)")
     ctx.rule("R7", "table modules contain nothing but the literal shape")
+    ctx.rule("R8", "module lookup from the FILES reply: GeckoAsyncSpa._connect and GeckoSpa._on_config_received import geckolib.driver.packs.<platform.lower()>, ...-cfg-<config_version>, ...-log-<log_version>, all three read from the same reply handler (symbolic string templates)")
+    from ..modlookup import lookup_obligations
+    n_lk = 0
+    for q in ("GeckoAsyncSpa._connect", "GeckoSpa._on_config_received"):
+        n_lk += lookup_obligations(ctx, repo, q, "R8")
+    ctx.floor("R8", "module lookups analysed", n_lk, 6)
     ctx.floor("R1", "table modules", len(T.modules), 120)
     ctx.floor("R1", "items", T.n_items(), 15000)
 
